@@ -2,6 +2,7 @@ CONSTANTS
   CropClamp = FALSE
   StartClamp = TRUE
   CtorLen = TRUE
+  CropUpper = TRUE
   MCDepth = 3
 SPECIFICATION Spec
 INVARIANT Refines
